@@ -16,7 +16,8 @@ structure St where
   arr : EncArray := {}
   -- S: frames finished so far, marked bytes of the message in progress, start of the last frame
   wire : List Byte := []
-  cur : List (Byte × Bool) := []
+  cur : List (Byte × Bool) := []       -- bytes the model's encoder calls consumed, a cut after each call
+  sbytes : List Byte := []             -- S: bytes handed over by the script since the last finished frame
   lastStart : Nat := 0
   lastEnd : Nat := 0
   haveFrame : Bool := false
@@ -60,28 +61,39 @@ def specDecode (c : Codec) (frame : List Byte) : String :=
 def markChunk (bytes : List Byte) : List (Byte × Bool) :=
   (bytes.dropLast.map fun b => (b, false)) ++ (bytes.getLast?.toList.map fun b => (b, true))
 
-/-- S for a push of `bytes`: the COBS framings admit everything; command text must not accept a zero -/
+/-- S for one encoder data call offering `bytes`.  A single alternative is given only where the spec
+    state after the op does not depend on the outcome (vlib/run.py keeps judging later ops against S after a
+    code/model difference in that case): the message is what the script handed over, whatever part of it
+    this call took.  For the ZPE framings the frame also depends on where a call ended between two zeros,
+    and command text must not accept a zero: there the alternatives are listed separately. -/
 def pushAlts (c : Codec) (bytes : List Byte) : String :=
   match c with
-  | .cobs _ => "* ; *"
+  | .cobs v => if v.isZpe ∧ bytes.contains 0 then "* ; * || * ; *" else "* ; *"
   | .command =>
     match bytes.findIdx? (· == 0) with
     | none => "* ; *"
     | some z => " || ".intercalate ("refused n=0 ; *" :: (List.range (min z 64)).map fun k => s!"ok n={k + 1} ; *")
 
-/-- S for a termination: the finished frames plus the frame of the current message; refusal is
-    allowed exactly when the window cannot hold the frame -/
+/-- frame of the message in progress: the script's bytes; cuts (ZPE only) where the model's calls ended -/
+def curMarks (s : St) : List (Byte × Bool) := s.cur ++ markChunk s.pending
+
+/-- S for a termination: the finished frames plus the frame of the current message; refusal is allowed
+    exactly when the window cannot hold the frame; `pending` = the script terminates although a part of
+    the last push has not been taken (harness convention: nothing is encoded then) -/
 def termAlts (s : St) (cap : Option Nat) : String × List Byte :=
-  match specFrame s.codec s.cur with
+  match specFrame s.codec (curMarks s) with
   | some f =>
     let w := s.wire ++ f
     match cap with
-    | some n => if w.length ≤ n then (s!"ok ; {toHex w}", w) else ("refused ; *", w)
-    | none => (s!"ok ; {toHex w}", w)
-  | none => ("refused ; *", s.wire)
+    | some n => if w.length ≤ n then (s!"ok ; {toHex w} || pending ; *", w) else ("refused ; * || pending ; *", w)
+    | none => (s!"ok ret=0 ; {toHex w}", w)
+  | none => ("refused ; * || pending ; *", s.wire)
 
-def doPush (s : St) (bytes : List Byte) : St × String :=
+/-- one encoder data call with everything not yet taken (`pending`) plus the new bytes -/
+def doPush (s : St) (new : List Byte) : St × String :=
+  let bytes := s.pending ++ new
   let alts := pushAlts s.codec bytes
+  let s := { s with sbytes := s.sbytes ++ new }
   match encode s.codec s.est s.win (some bytes) with
   | .ok o =>
     let s' := { s with est := o.st, win := o.win, pending := bytes.drop o.ret,
@@ -134,27 +146,38 @@ def frameAt (orig : List Byte) (fstart : Nat) : Option (List Byte) :=
   | some z => some (rest.take (z + 1))
   | none => none
 
-/-- S for a decoder call: never a message other than the reference decoding of the current frame;
-    not delivering (need more data, or an error) is always allowed -/
+/-- S for a decoder call, judged on the concatenation of all segments supplied so far (the property says
+    "in any segmentation"): with the frame at the input position complete,
+      * well-formed (reference decoder accepts): the call must deliver exactly the reference message; the only
+        other outcome is MissingBuffer where the framing may need more work area than the input provides
+        (ZPE zero pairs, command header) — in particular not 0 ("need more data") and no other message;
+      * malformed (reference decoder rejects): an error, never a message, never 0;
+    with the frame still incomplete: 0 or an error, never a message.  Peek mode never has to deliver. -/
 def decAlts (s : St) (peek : Bool) : String :=
   let safe := "guards=ok unread=ok"
-  let quiet := " || ".intercalate (["0", "BadArgument", "BadValue", "BadOperation", "MissingData", "MissingBuffer"].map
-    fun r => s!"ret={r} {safe} ; *")
+  let errs (names : List String) := names.map fun r => s!"ret={r} {safe} ; *"
+  let allErrs := ["BadArgument", "BadValue", "BadOperation", "MissingData", "MissingBuffer"]
+  let quiet := errs ("0" :: allErrs)
   match s.fstart with
   | none => "* ; *"
   | some f =>
-    let deliver : List String :=
+    let alts : List String :=
       match frameAt s.orig f with
-      | none => []
+      | none => quiet
       | some frame =>
-        match s.codec with
-        | .cobs v => match dec v frame with
-          | some m => if peek then [] else [s!"ret=1 msg={toHex m} {safe} ; *"]
-          | none => []
-        | .command => match decCmd frame with
-          | some m => if peek then [s!"ret=1 {safe} ; *"] else [s!"ret=1 msg={toHex m} {safe} ; *"]
-          | none => []
-    " || ".intercalate (deliver ++ [quiet])
+        if peek then
+          match s.codec with
+          | .command => (if (decCmd frame).isSome then [s!"ret=1 {safe} ; *"] else []) ++ quiet
+          | .cobs _ => quiet
+        else
+          match s.codec with
+          | .cobs v => match dec v frame with
+            | some m => s!"ret=1 msg={toHex m} {safe} ; *" :: (if v.isZpe then errs ["MissingBuffer"] else [])
+            | none => errs allErrs
+          | .command => match decCmd frame with
+            | some m => s!"ret=1 msg={toHex m} {safe} ; *" :: errs ["MissingBuffer"]
+            | none => errs allErrs
+    " || ".intercalate alts
 
 def runDecoder (c : Codec) (st : DecState) (segs : List Seg) (peek : Bool) : DecOut :=
   match c with
@@ -237,13 +260,14 @@ def step (s : St) (w : List String) : St × String :=
     | none => (s, "bad-op")
   | ["enc", "more"] =>
     if s.pending.isEmpty then (s, encLine "idle" s.est s.win "0" "* ; *")
-    else doPush s s.pending
+    else doPush s []
   | ["enc", "term"] =>
     let (alts, w) := termAlts s (some s.win.length)
+    if !s.pending.isEmpty then (s, encLine "pending" s.est s.win "0" alts) else
     match encode s.codec s.est s.win none with
     | .ok o =>
-      let s' := { s with est := o.st, win := o.win, pending := [], wire := w, cur := [],
-                         lastStart := s.lastEnd, lastEnd := o.st.done, haveFrame := true, lastMsg := s.cur.map Prod.fst }
+      let s' := { s with est := o.st, win := o.win, pending := [], wire := w, cur := [], sbytes := [],
+                         lastStart := s.lastEnd, lastEnd := o.st.done, haveFrame := true, lastMsg := s.sbytes }
       (s', encLine "ok" o.st o.win (toString o.ret) alts)
     | x => (s, encLine "refused" s.est s.win (resName x) alts)
   | ["enc", "check"] =>
@@ -264,9 +288,6 @@ def step (s : St) (w : List String) : St × String :=
     match parseHex dat with
     | some bytes =>
       if bytes.isEmpty then (s, "bad-op") else
-      let alts := match pushAlts s.codec bytes with
-        | "* ; *" => "* ; *"
-        | _ => "refused ret=BadEncoding ; *"
       match arrayPush s.codec mallocFill s.arr (some bytes) with
       | .ok (a, ret, cons) =>
         let buf := a.buf.getD []
@@ -274,23 +295,28 @@ def step (s : St) (w : List String) : St × String :=
         -- marks: one piece per encoder call
         let marks := (cons.foldl (fun (acc : List (Byte × Bool) × List Byte) k =>
           (acc.1 ++ markChunk (acc.2.take k), acc.2.drop k)) ([], bytes)).1
-        let s' := { s with arr := a, cur := s.cur ++ marks }
+        -- the array grows as needed: the whole push belongs to the message (command text: nothing of a
+        -- push containing a zero); anything else leaves the spec state open (two alternatives)
+        let alts := match s.codec, bytes.contains 0 with
+          | .command, true => "refused ret=BadEncoding ; *"
+          | .cobs v, z => if (v.isZpe ∧ z) ∨ taken ≠ bytes.length then "* ; * || * ; *" else "* ; *"
+          | .command, false => if taken ≠ bytes.length then "* ; * || * ; *" else "* ; *"
+        let s' := { s with arr := a, cur := s.cur ++ marks, sbytes := s.sbytes ++ bytes.take taken }
         let r := if ret < 0 then s!"refused ret={drvErr ret}" else s!"ok ret={ret}"
         (s', s!"R {r} | C {toHex (buf.take a.st.done)} | I used={a.used} scratch={a.st.scratch} cap={buf.length} taken={taken} | S {alts}")
-      | x => (s, s!"R refused ret={resName x} | C - | I - | S {alts}")
+      | x => (s, s!"R refused ret={resName x} | C - | I - | S * ; * || * ; *")
     | none => (s, "bad-op")
   | ["apush", "term"] =>
     let (alts, w) := termAlts s none
-    let alts := alts.replace "ok ;" "ok ret=0 ;"
+    -- the array provides the space: the spec demands success, so the spec state moves on whatever happened
+    let sp := { s with wire := w, cur := [], sbytes := [], haveFrame := true, lastMsg := s.sbytes }
     match arrayPush s.codec mallocFill s.arr none with
     | .ok (a, ret, _) =>
       let buf := a.buf.getD []
-      let ok := ret ≥ 0
-      let s' := if ok then { s with arr := a, wire := w, cur := [], lastStart := s.lastEnd, lastEnd := a.st.done, haveFrame := true, lastMsg := s.cur.map Prod.fst }
-                else { s with arr := a }
+      let s' := if ret ≥ 0 then { sp with arr := a, lastStart := s.lastEnd, lastEnd := a.st.done } else { sp with arr := a }
       let r := if ret < 0 then s!"refused ret={drvErr ret}" else s!"ok ret={ret}"
       (s', s!"R {r} | C {toHex (buf.take a.st.done)} | I used={a.used} scratch={a.st.scratch} cap={buf.length} taken=0 | S {alts}")
-    | x => (s, s!"R refused ret={resName x} | C - | I - | S {alts}")
+    | x => (sp, s!"R refused ret={resName x} | C - | I - | S {alts}")
   | ["apush", "check"] =>
     if !s.haveFrame then (s, "R none | C - | I - | S none ; *") else
     let buf := s.arr.buf.getD []
@@ -307,6 +333,17 @@ def step (s : St) (w : List String) : St × String :=
       let f := pyEnc m
       (s, s!"R frame={toHex f} {specDecode (.cobs .cobs) f} | C - | I - | S frame={toHex (enc .cobs m)} msg={toHex m} ; *")
     | _, _ => (s, "bad-op")
+  | ["pycmd", msg, out] =>
+    -- `out` is what /repo/mpt.py:encode_command returned for `msg` ("raise" = ValueError); the C driver
+    -- echoes it and decodes a returned frame with the real mpt_decode_command
+    match parseHex msg with
+    | some m =>
+      if out ≠ "raise" ∧ (parseHex out).isNone then (s, "bad-op") else
+      let fmt (r : Option (List Byte)) : String := match r with
+        | some f => s!"out={toHex f} {specDecode .command f}"
+        | none => "out=raise"
+      (s, s!"R {fmt (pyCmd m)} | C - | I - | S {fmt (encStr m)} ; *")
+    | none => (s, "bad-op")
   | _ => (s, "bad-op")
 where
   drvErr (r : Int) : String :=
